@@ -378,11 +378,19 @@ func (rep *Report) finish(evFile string) int {
 			for k := range known.Findings {
 				kf := &known.Findings[k]
 				if kf.Property == rep.prop && kf.Status == "known" && obligationMatches(kf.Obligation, br.Name) {
-					matched = true
+					v := verdicts[probeName[kf]]
+					if kf.Probe == "" || v == "fail" || v == "panic" {
+						matched = true
+						if !knownSeen[kf.ID+br.Name] {
+							knownSeen[kf.ID+br.Name] = true
+							knownLines = append(knownLines, fmt.Sprintf("KNOWN-FINDING: property=%s %s [%s] %s (witness: %s)", rep.prop, kf.ID, br.Name, kf.What, kf.Witness))
+							knownHit = append(knownHit, map[string]any{"id": kf.ID, "obligation": br.Name, "probe": v, "what": kf.What, "first_failing_case": f})
+						}
+					}
 				}
 			}
 			if matched {
-				continue
+				break
 			}
 			violations++
 			rp := filepath.Join(rep.replayDir, sanitizeFile(br.Name)+".json")
